@@ -31,6 +31,7 @@ type c10Server struct {
 type c10Origin struct {
 	server   int
 	srvCerts [][]byte
+	cliCerts [][]byte // what the server reported as the client's certificates
 	cr, sr   []byte
 	fin      [2][12]byte
 }
@@ -104,6 +105,8 @@ func (w *c10World) configs(i int) (*Config, *Config) {
 	ccfg := &Config{Time: vfTime, RootCAs: p.A.pool, ServerName: w.cliName, CipherSuites: w.cliSuites, SessionCache: w.ccache,
 		Certificates: []Certificate{p.CliSig, p.CliEnc}}
 	scfg := &Config{Time: vfTime, Certificates: []Certificate{p.SrvSig, p.SrvEnc}, CipherSuites: w.srv[i].suites, SessionCache: w.srv[i].cache, ClientCAs: p.A.pool}
+	// the three servers ask for the client's certificate under different policies (the client always has one)
+	scfg.ClientAuth = []ClientAuthType{RequestClientCert, RequireAnyClientCert, RequireAndVerifyClientCert}[i%3]
 	return ccfg, scfg
 }
 
@@ -270,6 +273,9 @@ func (w *c10World) connect(i int, fault *c03Edit) (sig, msg string) {
 			if !c01SameDER(c01DER(r.CS.PeerCertificates), o.srvCerts) {
 				return "resume-identity", "resumed connection reports a different server identity than the original"
 			}
+			if !c01SameDER(c01DER(r.SS.PeerCertificates), o.cliCerts) {
+				return "resume-identity", fmt.Sprintf("on the resumed connection the server reports %d client certificates, on the original %d (the same ones are expected)", len(r.SS.PeerCertificates), len(o.cliCerts))
+			}
 			if bytes.Equal(cr, o.cr) || bytes.Equal(sr, o.sr) {
 				return "resume-randoms", "resumed handshake reused a random value of the original"
 			}
@@ -291,7 +297,7 @@ func (w *c10World) connect(i int, fault *c03Edit) (sig, msg string) {
 		if r.CS.CipherSuite != full {
 			return "fallback-suite", fmt.Sprintf("full handshake negotiated %x, expected %x", r.CS.CipherSuite, full)
 		}
-		w.origin[string(shSid)] = &c10Origin{server: i, srvCerts: c01DER(r.CS.PeerCertificates), cr: cr, sr: sr, fin: r.CFin}
+		w.origin[string(shSid)] = &c10Origin{server: i, srvCerts: c01DER(r.CS.PeerCertificates), cliCerts: c01DER(r.SS.PeerCertificates), cr: cr, sr: sr, fin: r.CFin}
 		// the client now holds the new session for this destination
 		if st := c10Peek(w.ccache, s.addr); st == nil || !bytes.Equal(st.sessionId, shSid) {
 			return "new-session-not-stored", "after a full handshake the client's cache does not hold the new session for the destination"
